@@ -23,10 +23,10 @@ def py_error_tokens(e):
     return ["N"]
 
 
-def compare(cases):
+def compare(cases, unit=None):
     """returns (n_ok, mismatches[list of dict])"""
     lines = [c.fn + " " + c.line for c in cases]
-    outs = run_driver(lines)
+    outs = run_driver(lines, unit=unit)
     bad = []
     ok = 0
     for c, o in zip(cases, outs):
@@ -46,13 +46,13 @@ def compare(cases):
     return ok, bad
 
 
-def run_suite(name, gen, n, seed_names=()):
+def run_suite(name, gen, n, seed_names=(), unit=None):
     """generate n cases, compare; returns a dict with statistics."""
     t0 = time.time()
     rng = rng_for("l1", name, *seed_names)
     cases = list(gen(rng, n))
     t_impl = time.time() - t0
-    ok, bad = compare(cases)
+    ok, bad = compare(cases, unit=unit)
     byfn = collections.Counter(c.fn for c in cases)
     distinct = len(set((c.fn, c.line) for c in cases))
     sig = collections.Counter((c.fn, tuple(len(t) for t in c.expect), c.expect[0] if c.expect and len(c.expect[0]) < 3 else "") for c in cases)
